@@ -26,10 +26,11 @@ const (
 // the includes of a module are enqueued in the order order(path, "includes",
 // names) returns. For every visited module its types, then its constants, then
 // its services are pre-linked in the order the callback returns for the kinds
-// "types", "constants" and "services" (for a service, its functions are
-// pre-linked first, in the order returned for "functions:<service>"); after
-// that the module goes through the normal link pass, which then finds
-// everything already linked and only performs its remaining checks.
+// "types", "constants" and "services" (before any service, the functions of
+// all services of the module are pre-linked, service by service, in the order
+// returned for "functions:<service>"); after that the module goes through the
+// normal link pass, which then finds everything already linked and only
+// performs its remaining checks.
 //
 // The callback receives the sorted list of names; names it does not return are
 // visited afterwards in sorted order, names it invents are ignored. A nil
@@ -94,7 +95,8 @@ func CompileWithLinkOrder(path string, order func(modulePath, kind string, names
 		for name := range m.Services {
 			names = append(names, name)
 		}
-		for _, name := range ordered(m, VerifOrderServices, names) {
+		services := ordered(m, VerifOrderServices, names)
+		for _, name := range services {
 			service := m.Services[name]
 			fnames := make([]string, 0, len(service.Functions))
 			for fname := range service.Functions {
@@ -105,7 +107,9 @@ func CompileWithLinkOrder(path string, order func(modulePath, kind string, names
 					return compileError{Target: name + "." + fname, Reason: err}
 				}
 			}
-			if err := service.Link(m); err != nil {
+		}
+		for _, name := range services {
+			if err := m.Services[name].Link(m); err != nil {
 				return compileError{Target: name, Reason: err}
 			}
 		}
